@@ -533,6 +533,21 @@ func c13(x *mon.Ctx) {
 		add("cpusvn-wrong-size", fmt.Sprint(n), "error", base, withTcb(17, world.Seq(world.OID(2, 18), world.Octets(odd(n)))), nil)
 		add("ppid-wrong-size", fmt.Sprint(n), "error", base, withTop(0, world.Seq(world.OID(1), world.Octets(odd(n)))), nil)
 	}
+	// a wrongly sized CPUSVN whose contents happen to read as a complete DER OCTET STRING (04 len …): the size is the size of the
+	// element's contents; there is nothing to unwrap
+	for _, inner := range []int{0, 1, 3, 13, 15, 16, 17, 30} {
+		content := append([]byte{0x04, byte(inner)}, odd(inner)...)
+		if len(content) == 16 {
+			continue // sixteen bytes are a CPUSVN, whatever they look like
+		}
+		add("cpusvn-wrong-size", fmt.Sprintf("reads-as-octet-string-of-%d", inner), "error", base, withTcb(17, world.Seq(world.OID(2, 18), world.Octets(content))), nil)
+	}
+	add("cpusvn-wrong-size", "reads-as-two-nested-octet-strings", "error", base, withTcb(17, world.Seq(world.OID(2, 18), world.Octets(append([]byte{0x04, 18, 0x04, 16}, odd(16)...)))), nil)
+	{ // and the sixteen-byte value that looks like one is returned as it is
+		p := *base
+		copy(p.CPUSvn[:], append([]byte{0x04, 14}, odd(14)...))
+		add("cpusvn-reads-as-octet-string", "04-0e", "exact", &p, world.SgxExtension(&p), nil)
+	}
 	add("cpusvn-wrong-type", "integer", "error", base, withTcb(17, world.Seq(world.OID(2, 18), world.Int(5))), nil)
 	for _, n := range []int{0, 1, 5, 7, 12} {
 		add("fmspc-wrong-size", fmt.Sprint(n), "error", base, withTop(3, world.Seq(world.OID(4), world.Octets(odd(n)))), nil)
